@@ -214,7 +214,15 @@ def gen_result(r):
             shots.append(s)
     else:
         shots = [gen_shot(r, bad_p=0.03) for _ in range(nshots)]
-    return {"shots": shots, "strict_names": r.random() < 0.5, "strict_lengths": r.random() < 0.5}
+    out = {"shots": shots, "strict_names": r.random() < 0.5, "strict_lengths": r.random() < 0.5}
+    if r.random() < 0.12 and shots:
+        # a shot repeated with its bits written as floats (equal under ==, not the same values)
+        j = r.randrange(len(shots))
+        twin = [[t, (float(v) if isinstance(v, (bool, int)) else [float(x) if isinstance(x, (bool, int)) else x for x in v]
+                     if isinstance(v, list) else v)] for t, v in shots[j]]
+        shots.insert(j + 1, twin)
+        out["floats"] = True
+    return out
 
 
 def nest(r, v):
@@ -241,6 +249,16 @@ def check_result(ctx, case, stratum="result"):
 
     shots = [[(t, v) for t, v in s] for s in case["shots"]]
     sn, sl = case["strict_names"], case["strict_lengths"]
+    if case.get("floats"):
+        # values 1.0 / 0.0 (whether they are bits is not stated): what IS stated is that the strings of a result are the
+        # per-shot strings -- a shot that is refused on its own cannot be accepted because of its neighbours, and vice versa
+        ctx.count("monitor:multi-shot-consistency")
+        singles = [outcome(lambda s_=s_: QsysShot(s_).to_register_bits()) for s_ in shots]
+        multi = outcome(lambda: QsysResult(shots).register_bitstrings())
+        if any(x_[0] == "ValueError" for x_ in singles) != (multi[0] == "ValueError"):
+            ctx.disc(None, "multi-shot-vs-single-shot", "register_bitstrings()", [x_[0] for x_ in singles], multi[0],
+                     stratum=stratum, case=case)
+        return
     mk = lambda: QsysResult([QsysShot(s) if i % 2 else s for i, s in enumerate(shots)])  # noqa: E731
     exp = outcome(lambda: model_bitstrings(shots, sn, sl))
     obs = outcome(lambda: mk().register_bitstrings(strict_names=sn, strict_lengths=sl))
